@@ -24,6 +24,7 @@ import (
 	"fmt"
 	"github.com/nuts-foundation/nuts-node/core"
 	"regexp"
+	"strings"
 )
 
 // wrapper wraps a Storage backend and checks the validity of the kid on each of the relevant functions before
@@ -52,6 +53,10 @@ func NewValidatedKIDBackendWrapper(backend Storage, kidPattern *regexp.Regexp) S
 
 func (w wrapper) validateKID(kid string) error {
 	if !w.kidPattern.MatchString(kid) {
+		return fmt.Errorf("invalid key ID: %s", kid)
+	}
+	if strings.Trim(kid, ".") == "" {
+		// "." and ".." match the pattern, but are path segments that address the key store's namespace itself or its parent
 		return fmt.Errorf("invalid key ID: %s", kid)
 	}
 	return nil
